@@ -37,6 +37,9 @@ def run(repo, chk, tier):
     from .c01_swap import check_swap_transpose
 
     check_swap_transpose(repo, chk)
+    from .c01_domain import check_acos_domain
+
+    check_acos_domain(repo, chk)
     chk.trusted_base[:] = ["AST->sympy translator sa/sym.py (tensor component model)", "sympy ring normaliser", "checker's Wigner reference (cross-checked against sympy)"]
     chk.info("not decided: the invariance of the density under a common rotation / boost / inversion / exchange itself (numerical); decided are necessary conditions of the three mechanisms the property names")
     nonneg(repo, chk)
